@@ -361,6 +361,26 @@ class ODataParser(Parser):
     # Ensure MyPy doesn't lose its mind:
     _: Callable[..., Callable[[RuleDecorator], RuleDecorator]]
 
+    def parse(self, tokens):
+        """
+        Parse the given token stream into an :term:`AST`.
+
+        Args:
+            tokens: The tokens as produced by :meth:`ODataLexer.tokenize`.
+        Returns:
+            The root node of the :term:`AST`.
+        """
+        try:
+            return super().parse(tokens)
+        finally:
+            # An exception raised while parsing leaves the lexer's token
+            # generator suspended. Finalizing it later (whenever the exception
+            # is released) writes its stale position back into the lexer, even
+            # in the middle of the next input, so do it now.
+            close = getattr(tokens, "close", None)
+            if close is not None:
+                close()
+
     def error(self, token: Optional[Token]):
         """
         Error handler during parsing.
